@@ -17,14 +17,27 @@ def err_code(e):
     n = type(e).__name__
     table = {"DuplicateKeys": 11, "DuplicateValues": 12, "InconsistentMapping": 13, "CycleDetected": 14, "TransitiveError": 15,
              "DuplicateURIPrefixes": 21, "DuplicatePrefixes": 22}
-    if n in table:
-        return table[n]
-    if type(e) is ValueError:
+    for cls in type(e).__mro__:          # the documented classes, or classes derived from them
+        if cls.__name__ in table and cls.__module__.startswith("curies"):
+            return table[cls.__name__]
+    if isinstance(e, ValueError):        # "raises ValueError": the class or any subclass of it that is not one of the documented ones above
         return 1
     return 2
 
 
-def run_op(convs, op):
+def live_argument(conv, tag):
+    """An argument that IS one of the input converter's own live objects (a legal call: e.g. rewire(c, c.prefix_map) is a no-op
+    rewiring): the derivation must not write into it."""
+    if tag == 1:
+        return conv.prefix_map.keys()
+    if tag == 2:
+        return conv.synonym_to_prefix
+    if tag == 3:
+        return conv.reverse_prefix_map
+    return conv.prefix_map
+
+
+def run_op(convs, op, live=None):
     import curies
     from curies.reconciliation import remap_curie_prefixes, remap_uri_prefixes, rewire
 
@@ -32,8 +45,8 @@ def run_op(convs, op):
     if tag == 0:
         return curies.chain(convs, **qprops.flags(case_sensitive=bool(arg)))
     if tag == 1:
-        return convs[0].get_subconverter(list(arg))
-    m = dict(map(tuple, arg))
+        return convs[0].get_subconverter(live if live is not None else list(arg))
+    m = live if live is not None else dict(map(tuple, arg))
     if tag == 2:
         return remap_curie_prefixes(convs[0], m)
     if tag == 3:
@@ -486,7 +499,7 @@ class C10(DerivePlugin):
             # provenance of the inputs: 0 fresh from the constructor; 1..5 the input is itself the RESULT of an earlier derivation that
             # changes nothing (empty remapping / rewiring, chain of one, sub-converter of everything) -- pipelines of derivations
             prov = rng.choice([0, 0, 0, 1, 2, 3, 4, 5])
-            yield [[inputs, op, strs, pairs, [], rng.choice([0, 0, 0, 1, 2, 3]) if kind not in ("chain", "discover") else 0], 1 + len(follow), is_disc,
+            yield [[inputs, op, strs, pairs, [], rng.choice([0, 0, 0, 1, 2, 3, 4, 4]) if kind not in ("chain", "discover") else 0], 1 + len(follow), is_disc,
                    [follow, [extra_disc, prov]]]
 
     def observe(self, case):
@@ -495,8 +508,16 @@ class C10(DerivePlugin):
 
         (inputs, op, strs, pairs), nsteps, is_disc, (follow, tail) = case[0][:4], case[1], case[2], case[3]
         mode = case[0][5] if len(case[0]) > 5 else 0
+        alias = mode == 4 and op[0] in (1, 2, 3, 4) and not is_disc
         uris, prov = tail if (len(tail) == 2 and isinstance(tail[1], int)) else (tail, 0)
-        convs = build_inputs(inputs, mode)
+        if mode == 4:
+            prov = 0
+        convs = build_inputs(inputs, 0 if mode == 4 else mode)
+        live = None
+        if alias:
+            # the argument is one of the input's own live dictionaries; the model gets its content as it is before the call
+            live = live_argument(convs[0], op[0])
+            op = [op[0], sorted(live) if op[0] == 1 else [[a, b] for a, b in live.items()]]
         if mode:
             inputs = [[qprops.v_record(r) for r in c.records] for c in convs]
         if prov:
@@ -518,7 +539,7 @@ class C10(DerivePlugin):
             if is_disc:
                 R = discover(list(uris), converter=convs[0])
             else:
-                R = run_op(convs, op)
+                R = run_op(convs, op, live)
         except Exception as e:
             return case, [err_code(e), [flags()], 0]
         steps = [flags()]
